@@ -32,7 +32,7 @@ class C18(BtProp):
     keep = "TNW"
     keep_events = "EUXY"
     keep_own = True
-    quick_n, thorough_n = 300, 6000
+    quick_n, thorough_n = 2000, 30000
     rule = ("pick_up_where_you_left_off with 1-4 tasks (names with blanks / newlines / tabs), the oneshot idiom and the "
             "OneShot decorator under both policies, either_or with 2-4 options; all built by the library and, "
             "independently, by the model's constructors (shapes compared); random outcome schedules, interrupts of the "
